@@ -19,7 +19,7 @@ Import ListNotations.
 Local Open Scope Z_scope.
 
 Inductive tpl := TPipeline | TFanout | TMutex | TProdCons | TSelMain | TSelPriv | TClosure
-               | THostCall | TMulti | TSelSend | TSelSendX.
+               | THostCall | TMulti | TSelSend | TSelSendX | TGoLit.
 
 Record params := mkparams { p_tpl : tpl; p_n : nat; p_k : nat; p_a : Z; p_b : Z }.
 
@@ -39,8 +39,12 @@ Definition sort_z (l : list Z) : list Z := fold_right insert_z [] l.
 Definition g_pipeline (n k : nat) (a b : Z) : list Z :=
   map (fun x => fold_left (fun v j => (v * (a + j) + (b + j)) mod 1009) (zseq 0 n) x) (zseq 1 k).
 
+(** len(strconv.Itoa(x)) for 0 <= x < 10000 *)
+Definition ndigits (x : Z) : Z := if x <? 10 then 1 else if x <? 100 then 2 else if x <? 1000 then 3 else 4.
+
 Definition g_fanout (k : nat) (a b : Z) : list Z :=
-  sort_z (map (fun j => zsum (map (fun i => (j * a + b + i) mod 1009) [0; 1; 2])) (zseq 1 k)).
+  sort_z (map (fun j => let acc := zsum (map (fun i => (j * a + b + i) mod 1009) [0; 1; 2]) in
+                        acc + 10000 * ndigits acc) (zseq 1 k)).
 
 Definition g_mutex (n k : nat) (a : Z) : list Z :=
   let locals := map (fun id => Z.of_nat k * (id + a)) (zseq 0 n) in
@@ -74,6 +78,9 @@ Definition g_selsend (n k : nat) (a b : Z) : list Z :=
 Definition g_selsendx (n k : nat) (a b : Z) : list Z :=
   [zsum (map (fun x => x * a + b) (zseq 1 (k * n))); Z.of_nat (k * n)].
 
+Definition g_golit (n k : nat) (a b : Z) : list Z :=
+  map (fun id => zsum (map (fun x => x + id * a) (zseq 0 k)) + b) (zseq 0 n).
+
 Definition g_expected (p : params) : list Z :=
   let n := p_n p in let k := p_k p in let a := p_a p in let b := p_b p in
   match p_tpl p with
@@ -88,6 +95,7 @@ Definition g_expected (p : params) : list Z :=
   | TMulti => g_multi n k a b
   | TSelSend => g_selsend n k a b
   | TSelSendX => g_selsendx n k a b
+  | TGoLit => g_golit n k a b
   end.
 
 (** * Y *)
@@ -132,15 +140,35 @@ Definition selpriv_wellformed (p : params) (out : list Z) : bool :=
   | None => false
   end.
 
-(** observed outcome of one run: terminated normally with integer output, the output,
-    a race report involving the closure of [_select], any other race report *)
-Record observed := mkobs { o_ok : bool; o_out : list Z; o_race_select : bool; o_race_other : bool }.
+(** a function literal is re-evaluated while goroutines started from its earlier evaluations end *)
+Definition literal_reevaluated (p : params) : bool :=
+  match p_tpl p with TGoLit => (2 <=? p_n p)%nat | _ => false end.
 
-Definition y_admits (v : variant) (p : params) (o : observed) : bool :=
-  match v, select_is_shared p with
-  | Shared, true => o_ok o && negb (o_race_other o) && selpriv_wellformed p (o_out o)
-  | _, _ => o_ok o && negb (o_race_select o) && negb (o_race_other o) && list_z_eqb (o_out o) (y_expected p)
-  end.
+(** well-formed result of [TGoLit] when go statements may call a stale closure (Conc/Proofs.v
+    [getfunc_writeback_refuted]): every goroutine still writes its own entry (the index is an argument),
+    with the captured [base] of SOME iteration *)
+Definition golit_wellformed (p : params) (out : list Z) : bool :=
+  Nat.eqb (length out) (p_n p) &&
+  forallb (fun x => existsb (Z.eqb x) (g_golit (p_n p) (p_k p) (p_a p) (p_b p))) out.
 
-Definition g_admits (p : params) (o : observed) : bool :=
-  o_ok o && negb (o_race_select o) && negb (o_race_other o) && list_z_eqb (o_out o) (g_expected p).
+(** observed outcome of one run: terminated normally with integer output; the output; a race report involving
+    the closure of [_select]; a race report on getFunc's write-back; any other race report; the host process
+    died with "call of nil function" *)
+Record observed := mkobs { o_ok : bool; o_out : list Z; o_race_select : bool; o_race_getfunc : bool;
+                           o_race_other : bool; o_crash_nilcall : bool }.
+
+Definition strict (p : params) (o : observed) (expected : list Z) : bool :=
+  o_ok o && negb (o_race_select o) && negb (o_race_getfunc o) && negb (o_race_other o)
+  && negb (o_crash_nilcall o) && list_z_eqb (o_out o) expected.
+
+(** [v]: the select variant, [wb]: getFunc's write-back — both read from the source (Conc/Capture.v) *)
+Definition y_admits (v : variant) (wb : bool) (p : params) (o : observed) : bool :=
+  if literal_reevaluated p && wb then
+    negb (o_race_select o) && negb (o_race_other o)
+    && (o_crash_nilcall o || (o_ok o && golit_wellformed p (o_out o)))
+  else match v, select_is_shared p with
+       | Shared, true => o_ok o && negb (o_race_getfunc o) && negb (o_race_other o) && selpriv_wellformed p (o_out o)
+       | _, _ => strict p o (y_expected p)
+       end.
+
+Definition g_admits (p : params) (o : observed) : bool := strict p o (g_expected p).
